@@ -48,7 +48,9 @@ def gen_cases(tier, seed):
         total = 0
         while total < 3 * cap and len(eps) < 14:
             L = int(rng.choice([1, 1, 2, 3, H, H + 1, 2 * H, 3 * H]))
-            kind = str(rng.choice(["T", "T", "U", "T"]))
+            # "B": terminated and truncated on the same step (a time limit hit
+            # on a terminal step, as gymnasium's TimeLimit reports it)
+            kind = str(rng.choice(["T", "T", "U", "T", "B"]))
             eps.append([L, kind])
             total += L
         if rng.random() < 0.5:
@@ -239,8 +241,8 @@ def run_case(case):
         for t in range(L):
             gid += 1
             last = t == L - 1
-            term = last and kind == "T"
-            trunc = last and kind == "U"
+            term = last and kind in ("T", "B")
+            trunc = last and kind in ("U", "B")
             hist[gid] = (ep_no, t, term, trunc, task)
             sample = dict(
                 observation=np.array([ep_no, t, gid], dtype=float),
